@@ -35,7 +35,7 @@ def called_only_from(meths, roots):
         changed = False
         for name in meths:
             if name in allowed or not name.startswith('_') \
-                    or name.startswith('__'):
+                    or (name.startswith('__') and name.endswith('__')):
                 continue
             cs = callers_of.get(name, set()) - {name}
             if cs and cs <= allowed:
